@@ -568,8 +568,14 @@ def qualify(P, clause, ev):
         st = ev.S["agents.start"].astype(np.int64)
         if sb is None:
             return ""
+        G = sb[0].shape[0]
+        tg = ev.S["agents.target"].astype(np.int64)
         for i in range(len(st)):
             own = {(int(r), int(c)) for r, c in np.argwhere((sb[0] >= 1 + 3 * i) & (sb[0] <= 3 + 3 * i))}
+            if (int(tg[i][0]), int(tg[i][1])) == (-1, G - 1):
+                # the bogus target (-1, G-1) is written with a wrapped index onto cell (G-1, G-1): that cell is not part of
+                # the agent's walk, even when it happens to lie next to the start
+                own.discard((G - 1, G - 1))
             if not any((int(st[i][0]) + dr, int(st[i][1]) + dc) in own for dr, dc in NBRS):
                 return "boxed-in start cell"
     except Exception:
